@@ -272,7 +272,7 @@ def run_cases(name: str, cases: List[Case], rng=None, per_file: int = 250, jobs:
                 seen.add(fz)
                 orc.add_value(t, c.ct)
             orc.harvest_logs(c)
-        path = os.path.join(GEN, f"cases_{name}_{k // per_file}.v")
+        path = os.path.join(GEN, f"cases_{name}_p{os.getpid()}_{k // per_file}.v")
         emit_file(path, chunk, orc)
         files.append((path, chunk))
     mismatches: List[Tuple[Case, str]] = []
